@@ -8,7 +8,8 @@ Sources (pinned tree, /repo/src):
 * recon_buildblock/PoissonLogLikelihoodWithLinearModelForMeanAndProjData.cxx
     :80   `rim_truncation_sino = 0` (so the rim branch of `divide_and_truncate` is dead: not modelled)
     :494  `actual_subsets_are_approximately_balanced`, :537 `sensitivity_uses_same_projector`,
-    :543  `ensure_norm_is_set_up`, :580 `set_up_before_sensitivity` (segment range :590-597, TOF sensitivity switch :646),
+    :543  `ensure_norm_is_set_up`, :580 `set_up_before_sensitivity` (segment range :590-597, TOF range :599-606, TOF sensitivity
+          switch :651-665),
     :694  `actual_compute_subset_gradient_without_penalty` (flag condition :700),
     :739  `actual_compute_objective_function_without_penalty` (flag condition :742),
     :828  `add_subset_sensitivity` (flag conditions :840 and :854),
@@ -30,6 +31,8 @@ Sources (pinned tree, /repo/src):
   by the *argument* `timing_pos`; since ec572d9db the two Hessian functions, and since 0952293c1 `get_viewgrams`
   for the ones of `zero_seg0_end_planes`, pass the timing position of their loop, so every quantity is computed
   on the viewgrams of the subset itself (the model has no "which viewgrams are read" indirection any more);
+  since edcd88182 the two Hessian functions clear the end planes of segment 0 of their numerators (`zero_end_planes`, :940)
+  when `zero_seg0_end_planes` is set, like `get_viewgrams` does for value, gradient and sensitivity;
 * recon_buildblock/GeneralisedObjectiveFunction.cxx :121 `compute_penalty(…, subset)`, :128
   `compute_sub_gradient`, :187 `compute_gradient`, :240 / :248 `compute_objective_function`, :282 / :384 the penalised Hessian
   products and :329 / :355 their full-data loops;
@@ -162,23 +165,29 @@ def valueTerm (c : Consts K) (log : K → K) (zero : Bool) (img : Nat → K) (sm
   let newEst := maxK e1 (yEff zero b / c.maxQuot)
   if yEff zero b ≤ small then -newEst else yEff zero b * log newEst - newEst
 
-/-- `ybar` of the Hessian: forward projection plus additive term, read directly (no end-plane clearing) (cxx:1172-1177) -/
+/-- `ybar` of the Hessian: forward projection plus additive term, read directly (the denominator is not cleared; the numerator is) (cxx:1211-1221) -/
 def ybarH (img : Nat → K) (b : Bin K) : K :=
   match b.a with
   | some a => fwd img b.row + a
   | none => fwd img b.row
 
-/-- numerator of the Hessian weight: measured data times forward projection of the input (cxx:1184-1187) -/
-def hessNum (x : Nat → K) (b : Bin K) : K := b.y * fwd x b.row
+/-- numerator of the Hessian weight: measured data times forward projection of the input (cxx:1228-1230), the end planes of
+    segment 0 cleared when `zero_seg0_end_planes` is set (cxx:1231-1234, since edcd88182; before, the function did not look at the
+    flag: that is `hessNum false`) -/
+def hessNum (zero : Bool) (x : Nat → K) (b : Bin K) : K := if zeroed zero b then 0 else b.y * fwd x b.row
 
-/-- what `actual_accumulate_sub_Hessian_times_input_without_penalty` back-projects for one bin (cxx:1179-1190) -/
-def hessW (c : Consts K) (img x : Nat → K) (small : K) (b : Bin K) : K :=
-  divTrunc c small (hessNum x b) (ybarH img b * ybarH img b)
+/-- what `actual_accumulate_sub_Hessian_times_input_without_penalty` back-projects for one bin (cxx:1211-1238): a cleared
+    numerator gives a zero quotient, whatever the denominator -/
+def hessW (c : Consts K) (zero : Bool) (img x : Nat → K) (small : K) (b : Bin K) : K :=
+  divTrunc c small (hessNum zero x b) (ybarH img b * ybarH img b)
 
-/-- what `actual_add_multiplication_with_approximate_sub_Hessian_without_penalty` back-projects (cxx:1003-1027):
+/-- numerator of the approximate Hessian: forward projection of the input, end planes of segment 0 cleared (cxx:1049-1063) -/
+def ahessNum (zero : Bool) (x : Nat → K) (b : Bin K) : K := if zeroed zero b then 0 else fwd x b.row
+
+/-- what `actual_add_multiplication_with_approximate_sub_Hessian_without_penalty` back-projects (cxx:1038-1070):
     `fwd(x) / (y · norm²)` through `divide_and_truncate` -/
-def ahessW (c : Consts K) (x : Nat → K) (small : K) (b : Bin K) : K :=
-  divTrunc c small (fwd x b.row) (applyNorm c b.fac (applyNorm c b.fac b.y))
+def ahessW (c : Consts K) (zero : Bool) (x : Nat → K) (small : K) (b : Bin K) : K :=
+  divTrunc c small (ahessNum zero x b) (applyNorm c b.fac (applyNorm c b.fac b.y))
 
 /-- back projection of the weights `w small b` of one viewgram, as a list of (voxel, contribution) -/
 def bckVg (smallF : Viewgram K → K) (w : K → Bin K → K) (vg : Viewgram K) : List (Nat × K) :=
@@ -214,19 +223,19 @@ def sens (zero : Bool) (S : List (Viewgram K)) (v : Nat) : K := imageAt (sensCon
 def value (c : Consts K) (log : K → K) (zero : Bool) (img : Nat → K) (S : List (Viewgram K)) : K :=
   sumMap (fun vg => sumMap (valueTerm c log zero img (smallOf c (yEff zero) vg)) vg) S
 
-def hessContribs (c : Consts K) (img x : Nat → K) (S : List (Viewgram K)) : List (Nat × K) :=
-  S.flatMap (bckVg (smallOf c (hessNum x)) (hessW c img x))
+def hessContribs (c : Consts K) (zero : Bool) (img x : Nat → K) (S : List (Viewgram K)) : List (Nat × K) :=
+  S.flatMap (bckVg (smallOf c (hessNum zero x)) (hessW c zero img x))
 
 /-- `accumulate_sub_Hessian_times_input_without_penalty`: `output − back projection` -/
-def hessTimes (c : Consts K) (img x : Nat → K) (out0 : K) (S : List (Viewgram K)) (v : Nat) : K :=
-  out0 - imageAt (hessContribs c img x S) v
+def hessTimes (c : Consts K) (zero : Bool) (img x : Nat → K) (out0 : K) (S : List (Viewgram K)) (v : Nat) : K :=
+  out0 - imageAt (hessContribs c zero img x S) v
 
-def ahessContribs (c : Consts K) (x : Nat → K) (S : List (Viewgram K)) : List (Nat × K) :=
-  S.flatMap (bckVg (smallOf c (fun b => fwd x b.row)) (ahessW c x))
+def ahessContribs (c : Consts K) (zero : Bool) (x : Nat → K) (S : List (Viewgram K)) : List (Nat × K) :=
+  S.flatMap (bckVg (smallOf c (ahessNum zero x)) (ahessW c zero x))
 
 /-- `add_multiplication_with_approximate_sub_Hessian_without_penalty` -/
-def approxHess (c : Consts K) (x : Nat → K) (out0 : K) (S : List (Viewgram K)) (v : Nat) : K :=
-  out0 - imageAt (ahessContribs c x S) v
+def approxHess (c : Consts K) (zero : Bool) (x : Nat → K) (out0 : K) (S : List (Viewgram K)) (v : Nat) : K :=
+  out0 - imageAt (ahessContribs c zero x S) v
 
 /-- the penalised quantities of `GeneralisedObjectiveFunction` (cxx:121-160, 240): the prior's value /
     gradient divided by the number of subsets is subtracted -/
@@ -247,9 +256,9 @@ def penalisedFull (q prior : K) : K := q - prior
 /-- `accumulate_Hessian_times_input` (cxx:355-365) on an object with a prior: the subsets one after the other into the same
     output, each step being the penalised `accumulate_sub_Hessian_times_input` (cxx:384-410): the unpenalised subset
     product is subtracted from the output, then the share `H_prior · input / num_subsets` -/
-def hessTimesPenFull (c : Consts K) (img x : Nat → K) (priorOfInput numSubsets : K) (out0 : K)
+def hessTimesPenFull (c : Consts K) (zero : Bool) (img x : Nat → K) (priorOfInput numSubsets : K) (out0 : K)
     (Ss : List (List (Viewgram K))) (v : Nat) : K :=
-  Ss.foldl (fun o S => penalisedHess (hessTimes c img x o S v) priorOfInput numSubsets) out0
+  Ss.foldl (fun o S => penalisedHess (hessTimes c zero img x o S v) priorOfInput numSubsets) out0
 
 /-- the same loop on the numbers it handles at one voxel: `prods` = what the unpenalised subset products subtract from the
     output there, one per subset (`hessTimes … o S v = o − product`); this is what the driver executes
@@ -258,9 +267,9 @@ def penFullAccumulate (prods : List K) (priorOfInput numSubsets out0 : K) : K :=
   prods.foldl (fun o h => penalisedHess (o - h) priorOfInput numSubsets) out0
 
 /-- `add_multiplication_with_approximate_Hessian` (cxx:329-338) on an object with a prior, likewise (each step cxx:282-311) -/
-def approxHessPenFull (c : Consts K) (x : Nat → K) (priorOfInput numSubsets : K) (out0 : K)
+def approxHessPenFull (c : Consts K) (zero : Bool) (x : Nat → K) (priorOfInput numSubsets : K) (out0 : K)
     (Ss : List (List (Viewgram K))) (v : Nat) : K :=
-  Ss.foldl (fun o S => penalisedHess (approxHess c x o S v) priorOfInput numSubsets) out0
+  Ss.foldl (fun o S => penalisedHess (approxHess c zero x o S v) priorOfInput numSubsets) out0
 
 /-- `if (subset_num < 0 || subset_num >= this->get_num_subsets()) error(…)` (GeneralisedObjectiveFunction.cxx:136, :232):
     is the subset number accepted -/
@@ -285,10 +294,20 @@ def segRangeAfterSetUp (setting dataMax : Int) : Option Int :=
     the argument lists that answer for the links of the chain -/
 def isTofOnlyNorm (links : List Bool) : Bool := links.any id
 
-/-- the switch `use_tofsens` after `set_up_before_sensitivity` (cxx:638-650): when the sensitivities are computed by `set_up`,
-    TOF data with TOF normalisation factors turn the TOF sensitivity on -/
-def useTofsensAfterSetUp (recompute useTofsens tofData normTof : Bool) : Bool :=
-  if recompute && (!useTofsens && tofData && normTof) then true else useTofsens
+/-- `set_up_before_sensitivity` (cxx:599-606, since 4695cd773): `max_timing_pos_num_to_process == -1` (the default) stands for
+    the maximum TOF bin of the data; a value above the maximum of the data is refused (`none`); anything else is kept.
+    Value, gradient (cxx:751, :796), both Hessian functions (cxx:1010, :1139) and — with TOF sensitivities — the sensitivity
+    (cxx:912) run over the TOF bins `-m … m`.  (Before, `set_up` overwrote the member with the maximum of the data.) -/
+def tofRangeAfterSetUp (setting dataMax : Int) : Option Int :=
+  let m := if setting == -1 then dataMax else setting
+  if m > dataMax then none else some m
+
+/-- the switch `use_tofsens` after `set_up_before_sensitivity` (cxx:651-665): when the sensitivities are computed by `set_up`,
+    TOF data with TOF normalisation factors turn the TOF sensitivity on, and so does a TOF range below the maximum of the data
+    (`restricted`; the non-TOF sensitivity is the sum over all TOF bins) -/
+def useTofsensAfterSetUp (recompute useTofsens tofData normTof restricted : Bool) : Bool :=
+  let u := if recompute && (!useTofsens && tofData && normTof) then true else useTofsens
+  if recompute && (!u && tofData && restricted) then true else u
 
 /-- `sensitivity_uses_same_projector()` (cxx:537-540) -/
 def sensUsesSameProjector (tofData useTofsens : Bool) : Bool := !tofData || useTofsens
